@@ -73,7 +73,16 @@ impl<C: Cursor> Cursor for ConcatenatingCursor<C> {
             }
         }
         self.reposition(left)?;
-        self.cursors[self.position].seek(key)
+        self.cursors[self.position].seek(key)?;
+        // The binary search picks the first cursor that could hold the key; when every key in it
+        // sorts before the target, the answer is the first key of a later cursor.
+        while self.cursors[self.position].key().is_none()
+            && self.position + 1 < self.cursors.len()
+        {
+            self.reposition(self.position + 1)?;
+            self.cursors[self.position].seek(key)?;
+        }
+        Ok(())
     }
 
     fn prev(&mut self) -> Result<(), SError> {
